@@ -10,6 +10,7 @@ import itertools
 import json
 import os
 import signal
+import unicodedata
 import uuid
 
 import common
@@ -25,7 +26,9 @@ ABSENT = "zz#absent"
 NAMESPACES = ["http://x/", "urn:a:b#", "x:y=", "HTTP://H/p/", "https://e.org/a/b/", "ftp://h/d/?q="]
 # plain / empty / colliding / needing escaping / URL structure (path, dot segments, authority, query, fragment, scheme)
 PROPOSALS = [None, "", "p", "p q", "a:b", "\x01p\x1f", "é", "p_0001", "(x)|y", "p/q?r=s&t#u", "\x7f",
-             "/P", "../P", "../../P", "//e.com/P", "a/../../P", "..", ".", "?q", "#f", "x:y", "%2e%2e/P", "./"]
+             "/P", "../P", "../../P", "//e.com/P", "a/../../P", "..", ".", "?q", "#f", "x:y", "%2e%2e/P", "./",
+             # canonically equivalent spellings: decomposed, composed, leading combining marks, compatibility forms
+             "Spu\u0308l", "Sp\u00fcl", "\u0338P", "\u0301e", "e\u0301\u0323", "\ufb01x", "\u212b"]
 
 
 # ------------------------------------------------------------------ SDK side
@@ -230,6 +233,15 @@ def run_sdk(case):
                 arrangement = list(op[1])
                 mux.providers = [stores[i] for i in arrangement]
                 out = [0]
+            elif op[0] == "MC":
+                # a NEW multiplexer is constructed over the stores as they are now (possibly still empty)
+                arrangement = list(op[1])
+                mux = model.ObjectProviderMultiplexer([stores[i] for i in arrangement]) if (arrangement or k % 2) \
+                    else model.ObjectProviderMultiplexer()
+                for g, (_, sel) in zip(gens, case["gens"]):
+                    if sel >= n:
+                        g.provider = mux
+                out = [0]
             elif op[0] in ("N", "NL"):
                 kdst = op[1]
                 if op[0] == "N":
@@ -338,13 +350,16 @@ def gen_theme(rng):
     q = [_quote(p) for p in props]
     cands = [ns + (q[0] or "0000"), ns + q[0] + ("_0001" if q[0] else "0001"), ns + q[0] + ("_0002" if q[0] else "0002"),
              ns + (q[1] or "0000"), ns + "0000", ns + "0001", "other", "a b/c?d#e%f"]
+    # other spellings of the first candidates (Unicode normal forms): different identifiers for store and generator
+    twins = [t for c in cands[:2] for f in ("NFC", "NFD", "NFKC") for t in [unicodedata.normalize(f, c)] if t != c]
+    cands = cands[:2] + twins[:2] + cands[2:]
     # an Identifiable cannot carry 0x1f (AASd-130), although _quote_iri_segment lets it through
     cands = [c for c in cands if all(ord(ch) >= 32 and ord(ch) != 127 for ch in c)]
     nid = rng.randint(2, 4)
     # the first proposal's plain and _0001 candidates are usually taken, so that the generator has to count
-    head = [c for c in cands[:2] if rng.random() < .8]
+    head = [c for c in cands[:2 + len(twins[:2])] if rng.random() < .8]
     idpool = head + rng.sample([c for c in cands if c not in head], min(4, len(cands)) - len(head))
-    idpool = list(dict.fromkeys(idpool))[:nid]
+    idpool = list(dict.fromkeys(idpool))[:max(nid, len(head))]
     nobj = rng.randint(len(idpool) + 1, len(idpool) + 3)
     pool = [[i, t % 3] for t, i in enumerate(idpool)]
     while len(pool) < nobj:          # further objects share identifiers with earlier ones
@@ -361,8 +376,8 @@ def gen_case(rng, maxlen):
     ids = [p[0] for p in pool] + [ABSENT]
     nobj = len(pool)
     ops = []
-    if rng.random() < .85:
-        ops.append(["M", [rng.randrange(n) for _ in range(rng.randint(1, n + 1))]])
+    if rng.random() < .9:      # usual start-up order: the multiplexer is built over the still empty stores
+        ops.append([rng.choice(["M", "MC", "MC"]), [rng.randrange(n) for _ in range(rng.randint(1, n + 1))]])
     if gens and rng.random() < .7:      # fill the generator's provider, so that candidates are taken
         sel = gens[0][1]
         k0 = sel if sel < n else (ops[0][1][0] if ops and ops[0][1] else 0)
@@ -373,7 +388,7 @@ def gen_case(rng, maxlen):
     while len(ops) < L:
         r = rng.random()
         if r < .06:
-            ops.append(["M", [rng.randrange(n) for _ in range(rng.randint(0, n + 1))]])
+            ops.append([rng.choice(["M", "MC"]), [rng.randrange(n) for _ in range(rng.randint(0, n + 1))]])
         elif r < .12:
             if rng.random() < .6:      # a store constructed from another store (or from itself), then both are used
                 ops.append(["N", rng.randrange(n), rng.randrange(n)])
@@ -413,7 +428,7 @@ def exhaustive_cases(maxlen, quick):
         for seq in itertools.product(alpha + new, repeat=L):
             two = any(o in new for o in seq)
             if L <= 2 or (L == 3 and (two or not quick)) or (L == 4 and not two):
-                res.append({"pool": pool, "nstores": 2, "gens": [], "ops": [["M", [1, 0]]] + list(seq)})
+                res.append({"pool": pool, "nstores": 2, "gens": [], "ops": [["MC", [1, 0]]] + list(seq)})
     return res, len(alpha) + len(new)
 
 
@@ -454,7 +469,7 @@ Definition case (pool : list ident) (k : Z) (gens : list (string * Z)) (ops : li
 
 
 def coq_op(op):
-    if op[0] == "M":
+    if op[0] in ("M", "MC"):
         return "oM " + coq_list(str(i) for i in op[1])
     if op[0] == "N":
         return f"oN {op[1]} {op[2]}"
@@ -543,7 +558,7 @@ def run(chk):
         chk.count(f"stores={case['nstores']}")
         chk.count(f"len={min(len(ops), 16)}")
         for o, t in zip(ops, trace):
-            chk.count("op=" + (o[2] if o[0] == "S" else {"M": "mux-arrange", "G": "generate_id", "N": "construct-from-store", "NL": "construct-from-iterable"}[o[0]]))
+            chk.count("op=" + (o[2] if o[0] == "S" else {"M": "mux-arrange", "MC": "mux-construct", "G": "generate_id", "N": "construct-from-store", "NL": "construct-from-iterable"}[o[0]]))
             chk.count("out=" + {0: "None", 1: "object", 2: "None", 3: "bool", 4: "int", 5: "list", 6: "KeyError",
                                 8: "iri"}.get(t[0][0], "other"))
             if o[0] == "G" and t[0][0] == 8:
